@@ -14,6 +14,7 @@ import (
 
 func main() {
 	run := ev.Start("C06")
+	defer run.Guard()
 	gen2.Run(run)
 	gen1.Run(run)
 	gen2.Lenient(run) // lenient / strict client over HTTP
